@@ -86,6 +86,8 @@ type world struct {
 	nreq  int
 }
 
+var sendDeadline time.Duration
+
 func setup(R time.Duration, npipes int) *world {
 	w := &world{R: R}
 	s, err := req.NewSocket()
@@ -95,6 +97,11 @@ func setup(R time.Duration, npipes int) *world {
 	w.sock = s
 	if err := s.SetOption(mangos.OptionRetryTime, R); err != nil {
 		kit.Failf("setup", "SetOption(RetryTime): %v", err)
+	}
+	if sendDeadline > 0 {
+		if err := s.SetOption(mangos.OptionSendDeadline, sendDeadline); err != nil {
+			kit.Failf("setup", "SetOption(SendDeadline): %v", err)
+		}
 	}
 	w.ep = vt.Get("req")
 	if err := s.Listen("vt://req"); err != nil {
@@ -111,6 +118,11 @@ func setup(R time.Duration, npipes int) *world {
 	}
 	if v, err := c.GetOption(mangos.OptionRetryTime); err != nil || v.(time.Duration) != R {
 		kit.Failf("ctx-inherit-retrytime", "new context reports RetryTime %v (%v), socket has %v", v, err, R)
+	}
+	if sendDeadline > 0 {
+		if err := c.SetOption(mangos.OptionSendDeadline, sendDeadline); err != nil {
+			kit.Failf("setup", "ctx.SetOption(SendDeadline): %v", err)
+		}
 	}
 	w.ctxs = append(w.ctxs, &mctx{name: "ctx1", c: c, s: s})
 	return w
@@ -443,6 +455,13 @@ func (w *world) settle() {
 }
 
 func hist(depth int, R time.Duration) {
+	// A send deadline shorter than the retry interval must not matter once Send has returned:
+	// the request stays outstanding and keeps being re-sent.
+	sendDeadline = 0
+	if R > 0 && kit.ChooseFree(2) == 1 {
+		sendDeadline = R / 4
+		kit.Count("send-deadline-set")
+	}
 	w := setup(R, 2)
 	kit.Hist(depth, w.events, w.settle)
 	// run every remaining timer out: nothing that is done may be transmitted again
@@ -475,6 +494,7 @@ func cfgEarly() (c vsched.Config) {
 // timer may land before, during or after the processing of the reply.
 func schedTimerVsReply() {
 	R := 10 * time.Second
+	sendDeadline = 0
 	w := setup(R, 2)
 	m := w.ctxs[0]
 	sc := kit.Start("Send", func() (interface{}, error) { return nil, m.send([]byte("the-request")) })
